@@ -77,6 +77,9 @@ func repoOperation(c *ssa.Call) (name string, ok bool) {
 		}
 		return "", false
 	}
+	if extCalleeIs(c, "x/sync/errgroup", "Group", "Wait") {
+		return "errgroup.Wait", true // the errors of the parallel workers
+	}
 	sc := c.Call.StaticCallee()
 	if sc == nil || sc.Pkg == nil || !strings.HasPrefix(sc.Pkg.Pkg.Path(), engine.RepoMod) {
 		return "", false
